@@ -179,6 +179,10 @@ impl<'a, T: 'a + IO> Interpreter<'a, T> {
                 self.scopes.push(HashMap::new());
             },
             parser::Stmt::BlockEnd(_, _) => {
+                if self.scopes.len() <= 1 {
+                    let (line, file_name) = self.extract_err_meta_stmt(self.current)?;
+                    return Err(RuntimeError(line, file_name, "Unexpected '}'".to_string()));
+                }
                 self.current += 1;
                 // BlockEnd means all statements in this blocks scope were interpreted
                 // so destroying scope created by Stmt::BlockStart
@@ -776,7 +780,7 @@ impl<'a, T: 'a + IO> Interpreter<'a, T> {
                         if stack.is_empty() {
                             // consuming Stmt::BlockEnd
                             self.current += 1;
-                            break;
+                            return Ok(());
                         }
                     },
                     None => {
@@ -790,7 +794,9 @@ impl<'a, T: 'a + IO> Interpreter<'a, T> {
             self.current += 1;
         }
 
-        Ok(())
+        // reached end of all statements without finding end of block
+        let (line, file_name) = self.extract_err_meta_stmt(self.statements.len() - 1)?;
+        return Err(RuntimeError(line, file_name, "Expected a block closed with '}'".to_string()));
     }
 
     fn interpret_expr(&mut self, expr: parser::Expr) -> Result<DataType, PakhiErr> {
@@ -1117,7 +1123,7 @@ impl<'a, T: 'a + IO> Interpreter<'a, T> {
         match &self.statements[self.current] {
             parser::Stmt::BlockStart(_, _) => {},
             // TODO show file name and line number by matching all enum variant
-            _ => self.io.panic(PakhiErr::UnexpectedError("Expected '{'".to_string())),
+            _ => return Err(PakhiErr::UnexpectedError("Expected '{'".to_string())),
         }
 
         // assert_eq!(parser::Stmt::BlockStart, self.statements[self.current]);
